@@ -55,6 +55,10 @@ let run toks =
     let inb = parse_hex (s 4) in
     let ((rc, o), pos) = sc_unpack inb (zi (List.length inb)) (zi (i 3)) (sentbuf (i 5)) (zi (i 2)) (dt (s 1)) in
     Printf.sprintf "%s %d %s" (prc rc) (iz pos) (pbuf o)
+  | "packbig" | "unpackbig" ->
+    (* T count limit position: buffers too large for lists; code and position only (Pack and Unpack share the arithmetic) *)
+    let ((rc, pos), _) = sc_pack_codes (zi (i 2)) (dt (s 1)) (z_of_int (i 3)) (z_of_int (i 4)) in
+    Printf.sprintf "%s %d" (prc rc) (iz pos)
   | "packsize" -> let (rc, v) = sc_pack_size (zi (i 2)) (dt (s 1)) in prc rc ^ " " ^ pint v
   | "typesize" -> let (rc, v) = sc_type_size (dt (s 1)) in prc rc ^ " " ^ pint v
   | "sizeof" -> string_of_int (iz (sc_mpi_sizeof (dt (s 1))))
